@@ -396,6 +396,12 @@ VARIANTS = [
     brk('B-key-unpack-outside-try', ['C13'], 'R-decode-contained', (T, "            if self.recvRandKey:\n                randKey, message = message\n                assert randKey == self.recvRandKey\n", "            pass\n"),
         (T, "        self.__readBuffer = self.__readBuffer[4 + l:]\n", "        if self.recvRandKey:\n            randKey, message = message\n            if randKey != self.recvRandKey:\n                self.disconnect()\n                return None\n        self.__readBuffer = self.__readBuffer[4 + l:]\n")),
     brk('B-consumer-alias-enumerated', ['C17'], 'R-enumeration-siblings', (S, "                               getattr(getattr(consumer, m), 'replicated', False) and \\\n                               m != getattr(getattr(consumer, m), 'origName')]", "                               getattr(getattr(consumer, m), 'replicated', False)]")),
+    brk('B-send-round-returns-on-budget', ['C05', 'C18'], 'R-sender-total', (S, "                if delta > self.__conf.appendEntriesPeriod:\n                    break\n", "                if delta > self.__conf.appendEntriesPeriod:\n                    return\n")),
+    brk('B-heap-fast-path-append', ['C15'], 'R-heap-discipline', (B, "        heapq.heappush(self.__data, item)\n", "        if not self.__data or item >= self.__data[-1]:\n            self.__data.append(item)\n        else:\n            heapq.heappush(self.__data, item)\n")),
+    brk('B-release-pops-unconditionally', ['C16'], 'R-lock-guards', (B, "        existingLock = self.__locks.get(lockID, None)\n        if existingLock is not None and existingLock[0] == clientID:\n            del self.__locks[lockID]\n", "        self.__locks.pop(lockID, None)\n")),
+    keep('P-release-pop-guarded', (B, "        if existingLock is not None and existingLock[0] == clientID:\n            del self.__locks[lockID]\n", "        if existingLock is not None and existingLock[0] == clientID:\n            self.__locks.pop(lockID)\n")),
+    brk('B-drop-pops-wrong-key', ['C14'], 'R-drop-teardown', (TR, "self._nodeAddrToNode.pop(node.address, None)", "self._nodeAddrToNode.pop(node, None)")),
+    brk('B-readonly-id-from-set-size', ['C14', 'C18'], 'R-readonly-id-unique', (TR, "            nodeId = str(self._readonlyNodesCounter)\n", "            nodeId = str(len(self._readonlyNodes))\n"), (TR, "            self._readonlyNodesCounter += 1\n", "")),
     keep('P-rename-transport-privates', (TR, '_shouldConnect', '_mustDial'), (TR, '_onIncomingMessageReceived', '_onHandshake'), (TR, '_connectIfNecessarySingle', '_dialOne'),
          (TR, '_onDisconnected', '_onConnLost')),
     keep('P-checkserializing-hoist-reset', (SER, "                serializeState = SERIALIZER_STATE.SUCCESS if self.__pid == -1 else SERIALIZER_STATE.FAILED\n                self.__pid = 0\n", "                finished = self.__pid\n                self.__pid = 0\n                serializeState = SERIALIZER_STATE.SUCCESS if finished == -1 else SERIALIZER_STATE.FAILED\n")),
